@@ -56,6 +56,11 @@ pub enum Step {
     Gate { name: String, turns: i64 },
     /// Calls a public name parser on `s` and records what it returned and what it echoes.
     Parse { #[serde(rename = "fn")] func: String, s: String },
+    /// Starts the scripted HTTP endpoint; `$EP` in later push configs is replaced by its URL and
+    /// `$DEAD` by a URL on which nothing listens.
+    Endpoint { #[serde(default)] script: HashMap<String, Vec<crate::push::Outcome>>, #[serde(default)] default: Vec<crate::push::Outcome> },
+    /// Waits (real time) until the endpoint has received `n` requests, at most `ms`.
+    Waithttp { n: usize, ms: u64 },
     /// Records a `quiet` event if the server stays completely idle for a virtual millisecond.
     Quiet {},
 }
@@ -96,11 +101,41 @@ pub async fn run_scenario(scenario: &Scenario, out: Option<Out>) -> Vec<Value> {
     let mut calls: HashMap<String, (usize, tokio::task::JoinHandle<()>)> = HashMap::new();
     let mut streams: HashMap<String, StreamHandle> = HashMap::new();
     let mut held: Vec<crate::libcall::Held> = Vec::new();
+    let mut endpoint: Option<crate::push::Endpoint> = None;
+    let mut dead = String::new();
+    let real = scenario.meta.get("clock").and_then(|c| c.as_str()) == Some("real");
+    let push_task = if real {
+        let ms = scenario.meta.get("push_interval_ms").and_then(|v| v.as_u64()).unwrap_or(20);
+        let push_loop = world.app.push_loop(Duration::from_millis(ms));
+        Some(tokio::spawn(push_loop.run()))
+    } else {
+        None
+    };
 
     for step in &scenario.steps {
         match step.clone() {
             Step::Call { c, call } => {
+                let call = match call {
+                    CallSpec::CreateSub { name, topic, ack, push: Some(p) } => {
+                        let ep = endpoint.as_ref().map(|e| e.url.clone()).unwrap_or_default();
+                        CallSpec::CreateSub { name, topic, ack, push: Some(p.replace("$EP", &ep).replace("$DEAD", &dead)) }
+                    }
+                    other => other,
+                };
                 exec(Arc::clone(&world), c, call).await;
+            }
+            Step::Endpoint { script, default } => {
+                dead = crate::push::dead_url().await;
+                endpoint = Some(crate::push::start(Arc::clone(&world), script, default).await);
+            }
+            Step::Waithttp { n, ms } => {
+                let deadline = tokio::time::Instant::now() + Duration::from_millis(ms);
+                while let Some(ep) = &endpoint {
+                    if ep.seen.load(std::sync::atomic::Ordering::SeqCst) >= n || tokio::time::Instant::now() >= deadline {
+                        break;
+                    }
+                    tokio::time::sleep(Duration::from_millis(2)).await;
+                }
             }
             Step::Walk { c, kind, arg, size } => {
                 let mut token = String::new();
@@ -219,6 +254,12 @@ pub async fn run_scenario(scenario: &Scenario, out: Option<Out>) -> Vec<Value> {
     for (_, mut s) in streams.drain() {
         world.ev("sleft", json!({"c": s.c}));
         s.abandon(&world);
+    }
+    if let Some(t) = push_task {
+        t.abort();
+    }
+    if let Some(ep) = endpoint {
+        ep.task.abort();
     }
     world.ev("end", json!({}));
     let mut events = Vec::new();
